@@ -1,7 +1,7 @@
 CONSTANTS
   NThreads = 2
   MaxLen = 3
-  Ops = {"enable", "disable", "enter", "ret", "panic", "sethook", "cont", "bt"}
+  Ops = {"enable", "disable", "enter", "ret", "panic", "swallow", "sethook", "cont", "bt"}
 SPECIFICATION Spec
 INVARIANTS Balance OwnMessage EscapeIffForwarded Isolation Emit
 CHECK_DEADLOCK FALSE
